@@ -90,21 +90,21 @@ def resolveReg (ctx : Ctx) : Val → Int → M (String × Int)
   | .regF n size, idx => do
     let sz ← resolveAV ctx (avFuel ctx) size
     match sz with
-    | .int k => if idx ≥ k then .error (.jaqal "index-out-of-range") else pure (n, idx)
+    | .int k => if idx < 0 ∨ idx ≥ k then .error (.jaqal "index-out-of-range") else pure (n, idx)
     | .none => pure (n, idx)
     | .flt _ => .error (.other "float-size")
     | _ => .error (.other "TypeError")
   | r@(.regA _ src), idx => do
     let sz ← resolveAV ctx (avFuel ctx) (← resolveSize ctx r)
     match sz with
-    | .int k => if idx ≥ k then throw (.jaqal "index-out-of-range")
+    | .int k => if idx < 0 ∨ idx ≥ k then throw (.jaqal "index-out-of-range")
     | .none => pure ()
     | _ => throw (.other "TypeError")
     resolveReg ctx src idx
   | r@(.regS _ src start _ step), idx => do
     let sz ← resolveAV ctx (avFuel ctx) (← resolveSize ctx r)
     match sz with
-    | .int k => if idx ≥ k then throw (.jaqal "index-out-of-range")
+    | .int k => if idx < 0 ∨ idx ≥ k then throw (.jaqal "index-out-of-range")
     | .none => pure ()
     | _ => throw (.other "TypeError")
     let a ← resolveInt ctx (startOr0 start)
